@@ -68,7 +68,8 @@ def renderers(lang):
     from lxml import etree
     out = {}
     for f in FORMATS[lang]:
-        out[f'to_string:{f}'] = (lambda b, f=f: to_string(b, format=f))
+        # the format name arrives as a fresh string object each time (as from a command line or a configuration file)
+        out[f'to_string:{f}'] = (lambda b, f=f: to_string(b, format=(f + ' ').strip()))
     per_tree = {'auto_of': auto_of, 'conll_of': conll_of, 'ptb_of': ptb_of, 'deriv_of': deriv_of, 'ja_of': ja_of,
                 'json_of': lambda t: repr(json_of(t))}
     if lang == 'en':
@@ -81,6 +82,26 @@ def renderers(lang):
     out['to_prolog'] = (lambda b: to_prolog_en(b)) if lang == 'en' else (lambda b: to_prolog_ja(b))
     return out
 
+
+CLOCK = ("import time as _time, datetime as _dt\n"
+         "_off = %r\n"
+         "_t, _lt, _gm, _sf, _ct = _time.time, _time.localtime, _time.gmtime, _time.strftime, _time.ctime\n"
+         "_time.time = lambda: _t() + _off\n"
+         "_time.localtime = lambda s=None: _lt(_t() + _off if s is None else s)\n"
+         "_time.gmtime = lambda s=None: _gm(_t() + _off if s is None else s)\n"
+         "_time.strftime = lambda f, t=None: _sf(f, _lt(_t() + _off) if t is None else t)\n"
+         "_time.ctime = lambda s=None: _ct(_t() + _off if s is None else s)\n"
+         "class _D(_dt.datetime):\n"
+         "    @classmethod\n"
+         "    def now(cls, tz=None): return _dt.datetime.fromtimestamp(_t() + _off, tz)\n"
+         "    @classmethod\n"
+         "    def today(cls): return _dt.datetime.fromtimestamp(_t() + _off)\n"
+         "    @classmethod\n"
+         "    def utcnow(cls): return _dt.datetime.utcfromtimestamp(_t() + _off)\n"
+         "class _Dd(_dt.date):\n"
+         "    @classmethod\n"
+         "    def today(cls): return _dt.date.fromtimestamp(_t() + _off)\n"
+         "_dt.datetime, _dt.date = _D, _Dd\n")
 
 CHILD = ("import sys, json, pickle, copy; sys.path.insert(0, %r); sys.setrecursionlimit(20000)\n"
          "from vlib import env; env.install(%r); env.stub_native_parsing()\n"
@@ -125,8 +146,9 @@ def run_firstuse(spec, R):
             dump = repr([[treegen.tree_dump(st.tree) for st in t] for t in batch])
             R.case(stable_hash((order, dump)), True)
             outs = []
-            for o in (order, order[::-1]):
-                r = subprocess.run([sys.executable, '-c', CHILD % (env.VERIF, lang, lang, path, o)], capture_output=True, text=True,
+            for o, shift in ((order, 0), (order[::-1], 26 * 3600 + 61)):
+                # the second process also believes it runs a day later: an output must not depend on when it is produced
+                r = subprocess.run([sys.executable, '-c', CLOCK % shift + CHILD % (env.VERIF, lang, lang, path, o)], capture_output=True, text=True,
                                    env=dict(os.environ, PYTHONWARNINGS='ignore'), timeout=300)
                 try:
                     outs.append(json.loads(r.stdout.strip().split('\n')[-1]))
@@ -234,6 +256,32 @@ def run(spec, R):
                 R.violation('print:output-changes', f'{name} after {seq[:k]} on the same objects differs from {name} on a fresh copy',
                             dict(wit, step=k, got=got[:600], want=want[:600]))
                 break
+        else:
+            # the same result objects arranged differently (a slice, a reordered n-best list): nothing a printer remembered about
+            # their earlier positions may show
+            re_b = [list(reversed(t)) for t in reversed(batch)]
+            re_p = [list(reversed(t)) for t in reversed(copy.deepcopy(pristine))]
+            for name in sorted(set(seq)):
+                try:
+                    got, want = rend[name](re_b), rend[name](re_p)
+                except Exception:
+                    continue
+                R.count('output:rearranged-compared')
+                if got != want:
+                    R.violation('print:output-changes', f'{name} of the same results in another arrangement differs from {name} of a fresh '
+                                f'copy in that arrangement', dict(wit, step='rearranged', got=got[:600], want=want[:600]))
+                    break
+        # the same format named by another string object with the same text
+        f = rng.choice(FORMATS[lang])
+        try:
+            from depccg.printer import to_string
+            a, b = to_string(copy.deepcopy(pristine), format=f), to_string(copy.deepcopy(pristine), format=(f + ' ').strip())
+            R.count('output:format-name-object-compared')
+            if a != b:
+                R.violation('print:output-changes', f'format {f!r} renders differently when its name is another string object with the '
+                            f'same text', dict(wit, step='format-name', got=b[:600], want=a[:600]))
+        except Exception:
+            pass
         if i < 2:
             R.sample({'lang': lang, 'sequence': seq})
         if R.out_of_time():
